@@ -1199,6 +1199,33 @@ func c02Build(r *Run, npkg *packages.Package) {
 				}
 				po := info.Defs[nm]
 				used, reassigned := false, token.NoPos
+				// `if p == nil { p = default }` (or len(p) == 0) gives an absent child a default; nothing is dropped
+				nilDefault := map[*ast.AssignStmt]bool{}
+				ast.Inspect(fd.Body, func(n ast.Node) bool {
+					is, ok := n.(*ast.IfStmt)
+					if !ok {
+						return true
+					}
+					absent := false
+					if be, ok := ast.Unparen(is.Cond).(*ast.BinaryExpr); ok && be.Op == token.EQL {
+						if id, ok := ast.Unparen(be.X).(*ast.Ident); ok && info.Uses[id] == po && exprStr(be.Y) == "nil" {
+							absent = true
+						}
+						if c, ok := ast.Unparen(be.X).(*ast.CallExpr); ok && len(c.Args) == 1 && exprStr(c.Fun) == "len" && exprStr(be.Y) == "0" {
+							if id, ok := ast.Unparen(c.Args[0]).(*ast.Ident); ok && info.Uses[id] == po {
+								absent = true
+							}
+						}
+					}
+					if absent {
+						for _, st := range is.Body.List {
+							if as, ok := st.(*ast.AssignStmt); ok {
+								nilDefault[as] = true
+							}
+						}
+					}
+					return true
+				})
 				ast.Inspect(fd.Body, func(n ast.Node) bool {
 					switch x := n.(type) {
 					case *ast.AssignStmt:
@@ -1226,7 +1253,7 @@ func c02Build(r *Run, npkg *packages.Package) {
 										keeps = direct
 									}
 								}
-								if !keeps && !reassigned.IsValid() {
+								if !keeps && !reassigned.IsValid() && !nilDefault[x] {
 									reassigned = x.Pos()
 								}
 							}
